@@ -953,6 +953,20 @@ impl<'a> Engine<'a> {
             }
         }
         self.out.stats.commits += 1;
+        // probe: did this commit reuse freed pages (write below the previous high-water mark),
+        // and was a reader open while it did?
+        if let Some(prev) = self.out.commits.last() {
+            if prev.hwm > 0 {
+                let ps = self.cfg.pagesize;
+                let reused = simos::log_slice(log_call).iter().any(|e| matches!(e, simos::Ev::Write { off, .. } if *off / ps >= 2 && *off / ps < prev.hwm));
+                if reused {
+                    self.out.stats.probe("commit_reused_freed_pages");
+                    if !readers.is_empty() {
+                        self.out.stats.probe("pages_reused_while_a_reader_is_open");
+                    }
+                }
+            }
+        }
         let pre = Rc::new(std::mem::replace(&mut self.committed, view));
         let post = Rc::new(self.committed.clone());
         self.trace.str("commit");
